@@ -362,18 +362,24 @@ func eciesSection(x *h.X) {
 			return nil, nil, nil, false
 		}
 		iv = rest[:dem.iv]
+		// the ephemeral scalar comes from (at least) one cv.n-byte draw; the DEM IV must be a contiguous run of the
+		// OTHER bytes drawn in this call (drawing more entropy than is used is harmless and not judged)
 		var scalarDraws int
-		ivFound := dem.iv == 0
+		var other []byte
 		for _, d := range ds {
-			b := e.tp.Bytes(d.Off, d.N)
-			if !ivFound && d.N == dem.iv && bytes.Equal(b, iv) {
-				ivFound = true
+			if d.N == cv.n {
+				scalarDraws++
 				continue
 			}
-			if d.N != cv.n {
-				x.Fail("unexplained-draw", "%s: draw %v is neither an ephemeral scalar candidate (%d bytes) nor the DEM IV (%d bytes)", cfg, d, cv.n, dem.iv)
+			other = append(other, e.tp.Bytes(d.Off, d.N)...)
+		}
+		ivFound := dem.iv == 0 || bytes.Contains(other, iv)
+		if !ivFound && cv.n == dem.iv {
+			for _, d := range ds {
+				if bytes.Equal(e.tp.Bytes(d.Off, d.N), iv) {
+					ivFound = true
+				}
 			}
-			scalarDraws++
 		}
 		if !ivFound {
 			x.Fail("dem-iv-not-drawn-bytes", "%s: DEM IV %x is not a draw of this call (draws %v)", cfg, iv, ds)
@@ -417,12 +423,20 @@ func eciesSection(x *h.X) {
 	images := [][]byte{points[0]}
 	var scalarTargets, ivTargets []int
 	for _, d := range firstDs {
-		isIV := dem.iv > 0 && d.N == dem.iv && bytes.Equal(e.tp.Bytes(d.Off, d.N), ivs[0])
-		for j := 0; j < d.N; j++ {
-			if isIV {
-				ivTargets = append(ivTargets, d.Off+j)
-			} else {
+		db := e.tp.Bytes(d.Off, d.N)
+		isIV := dem.iv > 0 && d.N == dem.iv && bytes.Equal(db, ivs[0])
+		switch {
+		case d.N == cv.n && !isIV:
+			// a scalar candidate draw: every byte of it must influence the ephemeral key
+			for j := 0; j < d.N; j++ {
 				scalarTargets = append(scalarTargets, d.Off+j)
+			}
+		case dem.iv > 0:
+			// the draw carrying the DEM IV (possibly with surplus bytes that are drawn but unused, which is harmless)
+			if i := bytes.Index(db, ivs[0]); i >= 0 {
+				for j := 0; j < dem.iv; j++ {
+					ivTargets = append(ivTargets, d.Off+i+j)
+				}
 			}
 		}
 	}
